@@ -730,6 +730,10 @@ func checkC19(w *World, r *Recorder) propInfo {
 		c15Walker(w, sub, n)
 		remap(r, sub, map[string]string{"C15-H4": "C19-Y9"})
 	}
+	// Y12: … and the plain encoder flattens an embedded base profile into the
+	// extension's map only as long as the base type's own codec methods are the
+	// known ones (a promoted MarshalCBOR signs the embedded part alone)
+	ruleCodecMethodSets(w, r, "C19-Y12")
 	r.Floor("C19-Y5", 1)
 	return info
 }
@@ -892,6 +896,10 @@ func checkC20(w *World, r *Recorder) propInfo {
 			}
 		}
 	}
+	// U4: "the payload is itself a decodable claims map" is decided by the
+	// claims types' own unmarshallers, which the codec calls back: each fails
+	// exactly when its inner decode fails (C09-I2 run again under this property)
+	importRules(w, r, checkC09, "C20-U4", func(o *Oblig) bool { return o.Rule == "C09-I2" })
 	auditCoseUnmarshal(w, r, "C20-audit")
 	r.Floor("C20-U1", 1)
 	r.Floor("C20-U2", 3)
